@@ -79,6 +79,8 @@ def history(rnd, bits, long_filler=True):
 def cases(tier, seed, i, n):
     def allcases():
         rnd = random.Random(seed * 4099 + 6)
+        for j in range(20 if tier == 'quick' else 300):
+            yield dict(kind='noneg', hseed=rnd.randrange(1 << 30), offered=bool(j % 2))
         reps = 2 if tier == 'quick' else 80
         k = 0
         for rep in range(reps):
@@ -96,8 +98,6 @@ def cases(tier, seed, i, n):
                                 yield dict(kind='s2c', cfg=cfg, hseed=rnd.randrange(1 << 30), style=st,
                                            mixed=rnd.random() < 0.5)
         yield gen.mark('all 8x8x2x2 negotiated configurations, both directions')
-        for j in range(20 if tier == 'quick' else 300):
-            yield dict(kind='noneg', hseed=rnd.randrange(1 << 30), offered=bool(j % 2))
         more = 1500 if tier == 'quick' else 80000
         for _ in range(more):
             cfg = dict(sb=rnd.randint(8, 15), cb=rnd.randint(8, 15), snct=rnd.random() < 0.5,
@@ -182,8 +182,15 @@ def run_c2s(case, acc):
                     break
                 continue
             if not f['rsv1']:
-                key = 'negotiated-but-not-compressed'
-                break
+                # RFC 7692 6: an endpoint may send any message uncompressed on a negotiated connection, and the
+                # statement speaks of the messages "the client sends compressed".  Such a frame must carry the
+                # message verbatim and - this is what the peer below checks - must not have gone through the
+                # shared compression context (the peer never sees it, its window does not move).
+                acc.count2('c2s', 'sent_uncompressed_although_negotiated')
+                if f['payload'] != m:
+                    key = 'uncompressed-payload-altered'
+                    break
+                continue
             try:
                 got = peer.inflate(f['payload'])
             except deflate_peer.InflateError as e:
